@@ -2,6 +2,7 @@ package hx
 
 import (
 	"bufio"
+	"crypto/sha256"
 	"encoding/hex"
 	"encoding/json"
 	"fmt"
@@ -220,8 +221,22 @@ func (cl *Cluster) Concrete(c string, i int, r AbsReq) []byte {
 		a := make([]string, len(r.Args))
 		for x, s := range r.Args {
 			if strings.HasPrefix(s, "@") {
-				j, _ := strconv.Atoi(s[1:])
+				// "@j" the j-th token key; "@j+N" the same followed by N bytes of padding
+				pad := 0
+				spec := s[1:]
+				if plus := strings.IndexByte(spec, '+'); plus >= 0 {
+					pad, _ = strconv.Atoi(spec[plus+1:])
+					spec = spec[:plus]
+				}
+				j, _ := strconv.Atoi(spec)
 				a[x] = key(j)
+				if pad > 0 {
+					a[x] += "|" + strings.Repeat("x", pad-1)
+				}
+			} else if strings.HasPrefix(s, "#") {
+				// "#N": N bytes of filler
+				n, _ := strconv.Atoi(s[1:])
+				a[x] = strings.Repeat("v", n)
 			} else {
 				a[x] = s
 			}
@@ -291,7 +306,11 @@ func (c *Client) Drain(cl *Cluster, log *EventLog, rawLog bool) {
 		c.NGot++
 		ev := Event{Ev: "got", C: c.Name, I: c.NGot, Rep: cl.Abstract(r)}
 		if rawLog {
-			ev.Raw = hex.EncodeToString(c.buf[:used])
+			if used <= 4096 {
+				ev.Bytes = IntBytes(c.buf[:used])
+			} else {
+				ev.Raw = fmt.Sprintf("sha256:%x:%d", sha256.Sum256(c.buf[:used]), used)
+			}
 		}
 		log.Add(ev)
 		c.buf = c.buf[used:]
